@@ -97,7 +97,9 @@ def gen_source(rnd, d, idx, used_keys, case_id=0):
             if rnd.random() < 0.5:
                 rename[n] = rnd.choice(["r1", "r2", n + "_x"]) if rnd.random() < 0.85 else rnd.choice(names)
     mode = rnd.choice(MODES) if rnd.random() < 0.5 else "by_position"
-    return {"format": fmt, "path": path.name, "select": select, "rename": rename, "mode": mode, "_cols": cols}
+    # the YAML door leaves out defaults half of the time (source.mode defaults to by_position whatever the block's mode)
+    return {"format": fmt, "path": path.name, "select": select, "rename": rename, "mode": mode, "_cols": cols,
+            "_omit_defaults": rnd.random() < 0.5}
 
 
 def gen_spec(rnd, d, case_id=0):
@@ -144,7 +146,9 @@ def yaml_text(spec):
             e["context"] = b["context"]
         if b["source"] is not None:
             s = b["source"]
-            se = {"format": s["format"], "path": s["path"], "mode": s["mode"]}
+            se = {"format": s["format"], "path": s["path"]}
+            if not (s.get("_omit_defaults") and s["mode"] == "by_position"):
+                se["mode"] = s["mode"]
             if s["select"] is not None:
                 se["select"] = s["select"]
             if s["rename"]:
@@ -260,7 +264,7 @@ def promptness(rep, stats, tier):
             t0 = time.time()
             try:
                 p = subprocess.run([sys.executable, str(d / "child.py"), str(d / "spec.json"), str(limit_bytes), str(d)],
-                                   capture_output=True, text=True, timeout=limit_s, cwd="/repo")
+                                   capture_output=True, text=True, timeout=limit_s, cwd=str(core.REPO))
                 lines = [l for l in p.stdout.splitlines() if l.startswith("{")]
                 out = json.loads(lines[-1]) if lines else {"outcome": "crashed", "rc": p.returncode, "stderr": p.stderr[-300:]}
             except subprocess.TimeoutExpired:
